@@ -1,7 +1,27 @@
 
+(** val negb : bool -> bool **)
+
+let negb = function
+| true -> false
+| false -> true
+
 type nat =
 | O
 | S of nat
+
+type ('a, 'b) sum =
+| Inl of 'a
+| Inr of 'b
+
+(** val fst : ('a1 * 'a2) -> 'a1 **)
+
+let fst = function
+| (x, _) -> x
+
+(** val snd : ('a1 * 'a2) -> 'a2 **)
+
+let snd = function
+| (_, y) -> y
 
 (** val length : 'a1 list -> nat **)
 
@@ -43,13 +63,60 @@ module Nat =
 
   let ltb n0 m =
     leb (S n0) m
+
+  (** val max : nat -> nat -> nat **)
+
+  let rec max n0 m =
+    match n0 with
+    | O -> m
+    | S n' -> (match m with
+               | O -> n0
+               | S m' -> S (max n' m'))
+
+  (** val even : nat -> bool **)
+
+  let rec even = function
+  | O -> true
+  | S n1 -> (match n1 with
+             | O -> false
+             | S n' -> even n')
+
+  (** val odd : nat -> bool **)
+
+  let odd n0 =
+    negb (even n0)
+
+  (** val div2 : nat -> nat **)
+
+  let rec div2 = function
+  | O -> O
+  | S n1 -> (match n1 with
+             | O -> O
+             | S n' -> S (div2 n'))
  end
+
+(** val hd : 'a1 -> 'a1 list -> 'a1 **)
+
+let hd default = function
+| [] -> default
+| x :: _ -> x
 
 (** val tl : 'a1 list -> 'a1 list **)
 
 let tl = function
 | [] -> []
 | _ :: m -> m
+
+(** val nth : nat -> 'a1 list -> 'a1 -> 'a1 **)
+
+let rec nth n0 l default =
+  match n0 with
+  | O -> (match l with
+          | [] -> default
+          | x :: _ -> x)
+  | S m -> (match l with
+            | [] -> default
+            | _ :: t -> nth m t default)
 
 (** val last : 'a1 list -> 'a1 -> 'a1 **)
 
@@ -74,12 +141,54 @@ let rec rev = function
 | [] -> []
 | x :: l' -> app (rev l') (x :: [])
 
+(** val concat : 'a1 list list -> 'a1 list **)
+
+let rec concat = function
+| [] -> []
+| x :: l0 -> app x (concat l0)
+
+(** val map : ('a1 -> 'a2) -> 'a1 list -> 'a2 list **)
+
+let rec map f = function
+| [] -> []
+| a :: t -> (f a) :: (map f t)
+
 (** val fold_left : ('a1 -> 'a2 -> 'a1) -> 'a2 list -> 'a1 -> 'a1 **)
 
 let rec fold_left f l a0 =
   match l with
   | [] -> a0
   | b :: t -> fold_left f t (f a0 b)
+
+(** val forallb : ('a1 -> bool) -> 'a1 list -> bool **)
+
+let rec forallb f = function
+| [] -> true
+| a :: l0 -> (&&) (f a) (forallb f l0)
+
+(** val firstn : nat -> 'a1 list -> 'a1 list **)
+
+let rec firstn n0 l =
+  match n0 with
+  | O -> []
+  | S n1 -> (match l with
+             | [] -> []
+             | a :: l0 -> a :: (firstn n1 l0))
+
+(** val skipn : nat -> 'a1 list -> 'a1 list **)
+
+let rec skipn n0 l =
+  match n0 with
+  | O -> l
+  | S n1 -> (match l with
+             | [] -> []
+             | _ :: l0 -> skipn n1 l0)
+
+(** val repeat : 'a1 -> nat -> 'a1 list **)
+
+let rec repeat x = function
+| O -> []
+| S k -> x :: (repeat x k)
 
 type positive =
 | XI of positive
@@ -469,6 +578,12 @@ let rec bytes_eqb a b =
     (match b with
      | [] -> false
      | y :: b' -> (&&) (N.eqb x y) (bytes_eqb a' b'))
+
+(** val mem_bytes : bytes -> bytes list -> bool **)
+
+let rec mem_bytes x = function
+| [] -> false
+| y :: l' -> (||) (bytes_eqb x y) (mem_bytes x l')
 
 (** val b_slash : byte **)
 
@@ -1065,3 +1180,441 @@ let rec utf8_go st = function
 
 let utf8_valid s =
   utf8_go U0 s
+
+type depfile_err =
+| ErrNoColon
+| ErrInputsHaveInputs
+
+type dresult =
+| DOk of bytes list * bytes list
+| DErr of depfile_err
+| DOutOfFuel
+
+(** val in_range0 : byte -> byte -> byte -> bool **)
+
+let in_range0 lo hi c =
+  (&&) (N.leb lo c) (N.leb c hi)
+
+(** val mem_byte : byte -> bytes -> bool **)
+
+let rec mem_byte c = function
+| [] -> false
+| d :: l' -> (||) (N.eqb c d) (mem_byte c l')
+
+(** val plain_punct : bytes **)
+
+let plain_punct =
+  (Npos (XI (XI (XO (XI (XO XH)))))) :: ((Npos (XI (XI (XI (XI (XI
+    XH)))))) :: ((Npos (XO (XI (XO (XO (XO XH)))))) :: ((Npos (XI (XI (XI (XO
+    (XO XH)))))) :: ((Npos (XO (XI (XI (XO (XO XH)))))) :: ((Npos (XO (XO (XI
+    (XI (XO XH)))))) :: ((Npos (XI (XI (XI (XI (XO XH)))))) :: ((Npos (XI (XI
+    (XI (XI (XI (XO XH))))))) :: ((Npos (XO (XI (XO (XI (XI
+    XH)))))) :: ((Npos (XO (XI (XI (XI (XO XH)))))) :: ((Npos (XO (XI (XI (XI
+    (XI (XI XH))))))) :: ((Npos (XO (XO (XO (XI (XO XH)))))) :: ((Npos (XI
+    (XO (XO (XI (XO XH)))))) :: ((Npos (XI (XO (XI (XI (XI (XI
+    XH))))))) :: ((Npos (XI (XI (XO (XI (XI (XI XH))))))) :: ((Npos (XI (XO
+    (XI (XO (XO XH)))))) :: ((Npos (XI (XO (XI (XI (XI XH)))))) :: ((Npos (XO
+    (XO (XO (XO (XO (XO XH))))))) :: ((Npos (XI (XI (XO (XI (XI (XO
+    XH))))))) :: ((Npos (XI (XO (XI (XI (XI (XO XH))))))) :: ((Npos (XI (XO
+    (XO (XO (XO XH)))))) :: ((Npos (XI (XO (XI (XI (XO
+    XH)))))) :: [])))))))))))))))))))))
+
+(** val is_plain : byte -> bool **)
+
+let is_plain c =
+  (||)
+    ((||)
+      ((||)
+        ((||)
+          (in_range0 (Npos (XI (XO (XO (XO (XO (XI XH))))))) (Npos (XO (XI
+            (XO (XI (XI (XI XH))))))) c)
+          (in_range0 (Npos (XI (XO (XO (XO (XO (XO XH))))))) (Npos (XO (XI
+            (XO (XI (XI (XO XH))))))) c))
+        (in_range0 (Npos (XO (XO (XO (XO (XI XH)))))) (Npos (XI (XO (XO (XI
+          (XI XH)))))) c)) (mem_byte c plain_punct))
+    (in_range0 (Npos (XO (XO (XO (XO (XO (XO (XO XH)))))))) (Npos (XI (XI (XI
+      (XI (XI (XI (XI XH)))))))) c)
+
+(** val is_colon_blank : byte -> bool **)
+
+let is_colon_blank e =
+  (||)
+    ((||)
+      ((||) ((||) (N.eqb e N0) (N.eqb e (Npos (XO (XO (XO (XO (XO XH))))))))
+        (N.eqb e (Npos (XI (XO (XI XH))))))
+      (N.eqb e (Npos (XO (XI (XO XH)))))) (N.eqb e (Npos (XI (XO (XO XH)))))
+
+(** val at0 : bytes -> nat -> byte **)
+
+let at0 l k =
+  nth k l N0
+
+(** val count_bs : bytes -> nat **)
+
+let rec count_bs = function
+| [] -> O
+| c :: l' ->
+  if N.eqb c (Npos (XO (XO (XI (XI (XI (XO XH)))))))
+  then S (count_bs l')
+  else O
+
+(** val plain_run : bytes -> nat **)
+
+let rec plain_run = function
+| [] -> O
+| c :: l' -> if is_plain c then S (plain_run l') else O
+
+(** val bsN : nat -> bytes **)
+
+let bsN n0 =
+  repeat (Npos (XO (XO (XI (XI (XI (XO XH))))))) n0
+
+type sres =
+| SCont of bytes * nat * nat
+| SBrk of bytes * nat * nat * bool
+
+(** val step : bytes -> sres **)
+
+let step buf =
+  let n0 = count_bs buf in
+  (match n0 with
+   | O ->
+     let c = at0 buf O in
+     if N.eqb c (Npos (XO (XO (XI (XO (XO XH))))))
+     then if N.eqb (at0 buf (S O)) (Npos (XO (XO (XI (XO (XO XH))))))
+          then SCont (((Npos (XO (XO (XI (XO (XO XH)))))) :: []), (S (S O)),
+                 (S O))
+          else SBrk ([], (S O), (S O), false)
+     else if is_plain c
+          then let j = plain_run buf in SCont ((firstn j buf), j, j)
+          else if N.eqb c N0
+               then SBrk ([], (S O), O, false)
+               else if N.eqb c (Npos (XO (XI (XO XH))))
+                    then SBrk ([], (S O), O, true)
+                    else if N.eqb c (Npos (XI (XO (XI XH))))
+                         then if N.eqb (at0 buf (S O)) (Npos (XO (XI (XO
+                                   XH))))
+                              then SBrk ([], (S (S O)), (S O), true)
+                              else SBrk ([], (S O), (S O), false)
+                         else SBrk ([], (S O), O, false)
+   | S m ->
+     let d = at0 buf n0 in
+     if N.eqb d (Npos (XO (XO (XO (XO (XO XH))))))
+     then if Nat.odd n0
+          then SCont
+                 ((app (bsN (Nat.div2 m)) ((Npos (XO (XO (XO (XO (XO
+                    XH)))))) :: [])), (S n0), n0)
+          else SBrk ((bsN n0), (S n0), n0, false)
+     else if N.eqb d (Npos (XI (XI (XO (XO (XO XH))))))
+          then SCont
+                 ((app (bsN m) ((Npos (XI (XI (XO (XO (XO XH)))))) :: [])),
+                 (S n0), n0)
+          else if N.eqb d (Npos (XO (XI (XO (XI (XI XH))))))
+               then let e = at0 buf (S n0) in
+                    if is_colon_blank e
+                    then SBrk
+                           ((app (bsN n0) ((Npos (XO (XI (XO (XI (XI
+                              XH)))))) :: [])), (S (S n0)), (S n0),
+                           (N.eqb e (Npos (XO (XI (XO XH))))))
+                    else SCont
+                           ((app (bsN m) ((Npos (XO (XI (XO (XI (XI
+                              XH)))))) :: [])), (S n0), (S n0))
+               else if (||)
+                         ((||) (N.eqb d N0)
+                           (N.eqb d (Npos (XI (XO (XI XH))))))
+                         (N.eqb d (Npos (XO (XI (XO XH)))))
+                    then (match m with
+                          | O ->
+                            if N.eqb d (Npos (XO (XI (XO XH))))
+                            then SBrk ([], (S (S O)), (S O), false)
+                            else if N.eqb d (Npos (XI (XO (XI XH))))
+                                 then if N.eqb (at0 buf (S (S O))) (Npos (XO
+                                           (XI (XO XH))))
+                                      then SBrk ([], (S (S (S O))), (S (S
+                                             O)), false)
+                                      else SBrk ([], (S O), (S (S O)), false)
+                                 else SBrk ([], (S O), (S O), false)
+                          | S _ -> SCont ((bsN n0), n0, n0))
+                    else SCont ((app (bsN n0) (d :: [])), (S n0), n0))
+
+(** val tok : nat -> bytes -> bytes -> ((bytes * bytes) * bool) option **)
+
+let rec tok fuel buf fn =
+  match fuel with
+  | O -> None
+  | S f ->
+    (match step buf with
+     | SCont (e, k, _) -> tok f (skipn k buf) (app fn e)
+     | SBrk (e, k, _, nl) -> Some (((app fn e), (skipn k buf)), nl))
+
+type pstate = { p_outs : bytes list; p_ins : bytes list;
+                p_have_target : bool; p_parsing_targets : bool;
+                p_poisoned : bool; p_is_empty : bool }
+
+(** val p_init : pstate **)
+
+let p_init =
+  { p_outs = []; p_ins = []; p_have_target = false; p_parsing_targets = true;
+    p_poisoned = false; p_is_empty = true }
+
+(** val strip_colon : bytes -> bytes * bool **)
+
+let strip_colon fn =
+  match rev fn with
+  | [] -> ([], false)
+  | c :: r ->
+    if N.eqb c (Npos (XO (XI (XO (XI (XI XH))))))
+    then ((rev r), true)
+    else (fn, false)
+
+(** val is_nil : 'a1 list -> bool **)
+
+let is_nil = function
+| [] -> true
+| _ :: _ -> false
+
+(** val absorb : pstate -> bytes -> bool -> (depfile_err, pstate) sum **)
+
+let absorb st fn nl =
+  let is_dep = negb st.p_parsing_targets in
+  let (piece, colon) = strip_colon fn in
+  let pt = if colon then false else st.p_parsing_targets in
+  let ht = if colon then true else st.p_have_target in
+  let r =
+    if is_nil piece
+    then Inr (((st.p_outs, st.p_ins), st.p_poisoned), st.p_is_empty)
+    else if negb (mem_bytes piece st.p_ins)
+         then if is_dep
+              then if st.p_poisoned
+                   then Inl ErrInputsHaveInputs
+                   else Inr (((st.p_outs, (app st.p_ins (piece :: []))),
+                          st.p_poisoned), false)
+              else if mem_bytes piece st.p_outs
+                   then Inr (((st.p_outs, st.p_ins), st.p_poisoned), false)
+                   else Inr ((((app st.p_outs (piece :: [])), st.p_ins),
+                          st.p_poisoned), false)
+         else if is_dep
+              then Inr (((st.p_outs, st.p_ins), st.p_poisoned), false)
+              else Inr (((st.p_outs, st.p_ins), true), false)
+  in
+  (match r with
+   | Inl e -> Inl e
+   | Inr p ->
+     let (p0, em) = p in
+     let (p1, po) = p0 in
+     let (o, i) = p1 in
+     if nl
+     then Inr { p_outs = o; p_ins = i; p_have_target = ht;
+            p_parsing_targets = true; p_poisoned = false; p_is_empty = em }
+     else Inr { p_outs = o; p_ins = i; p_have_target = ht;
+            p_parsing_targets = pt; p_poisoned = po; p_is_empty = em })
+
+(** val finish : pstate -> dresult **)
+
+let finish st =
+  if (&&) (negb st.p_have_target) (negb st.p_is_empty)
+  then DErr ErrNoColon
+  else DOk (st.p_outs, st.p_ins)
+
+(** val run : nat -> bytes -> pstate -> dresult **)
+
+let rec run fuel buf st =
+  match buf with
+  | [] -> finish st
+  | _ :: _ ->
+    (match fuel with
+     | O -> DOutOfFuel
+     | S f ->
+       (match tok (S (length buf)) buf [] with
+        | Some p ->
+          let (p0, nl) = p in
+          let (fn, rest) = p0 in
+          (match absorb st fn nl with
+           | Inl e -> DErr e
+           | Inr st' -> run f rest st')
+        | None -> DOutOfFuel))
+
+(** val parse_depfile : bytes -> dresult **)
+
+let parse_depfile s =
+  run (S (length s)) s p_init
+
+(** val tok_idx :
+    nat -> bytes -> bytes -> nat -> nat ->
+    ((((bytes * bytes) * bool) * nat) * nat) option **)
+
+let rec tok_idx fuel buf fn pos hi =
+  match fuel with
+  | O -> None
+  | S f ->
+    (match step buf with
+     | SCont (e, k, lk) ->
+       tok_idx f (skipn k buf) (app fn e) (Nat.add pos k)
+         (Nat.max hi (Nat.add pos lk))
+     | SBrk (e, k, lk, nl) ->
+       Some (((((app fn e), (skipn k buf)), nl), (Nat.add pos k)),
+         (Nat.max hi (Nat.add pos lk))))
+
+(** val run_idx : nat -> bytes -> pstate -> nat -> nat -> dresult * nat **)
+
+let rec run_idx fuel buf st pos hi =
+  match buf with
+  | [] -> ((finish st), hi)
+  | _ :: _ ->
+    (match fuel with
+     | O -> (DOutOfFuel, hi)
+     | S f ->
+       (match tok_idx (S (length buf)) buf [] pos hi with
+        | Some p ->
+          let (p0, hi') = p in
+          let (p1, pos') = p0 in
+          let (p2, nl) = p1 in
+          let (fn, rest) = p2 in
+          (match absorb st fn nl with
+           | Inl e -> ((DErr e), hi')
+           | Inr st' -> run_idx f rest st' pos' hi')
+        | None -> (DOutOfFuel, hi)))
+
+(** val parse_depfile_idx : bytes -> dresult * nat **)
+
+let parse_depfile_idx s =
+  run_idx (S (length s)) s p_init O O
+
+(** val run_then_space : bytes -> bool **)
+
+let rec run_then_space = function
+| [] -> false
+| c :: x' ->
+  if N.eqb c (Npos (XO (XO (XI (XI (XI (XO XH)))))))
+  then run_then_space x'
+  else N.eqb c (Npos (XO (XO (XO (XO (XO XH))))))
+
+(** val enc_byte : bool -> byte -> bytes -> bytes **)
+
+let enc_byte esc_colon c x' =
+  if N.eqb c (Npos (XO (XO (XI (XI (XI (XO XH)))))))
+  then if run_then_space x'
+       then (Npos (XO (XO (XI (XI (XI (XO XH))))))) :: ((Npos (XO (XO (XI (XI
+              (XI (XO XH))))))) :: [])
+       else (Npos (XO (XO (XI (XI (XI (XO XH))))))) :: []
+  else if N.eqb c (Npos (XO (XO (XO (XO (XO XH))))))
+       then (Npos (XO (XO (XI (XI (XI (XO XH))))))) :: ((Npos (XO (XO (XO (XO
+              (XO XH)))))) :: [])
+       else if N.eqb c (Npos (XI (XI (XO (XO (XO XH))))))
+            then (Npos (XO (XO (XI (XI (XI (XO XH))))))) :: ((Npos (XI (XI
+                   (XO (XO (XO XH)))))) :: [])
+            else if N.eqb c (Npos (XO (XO (XI (XO (XO XH))))))
+                 then (Npos (XO (XO (XI (XO (XO XH)))))) :: ((Npos (XO (XO
+                        (XI (XO (XO XH)))))) :: [])
+                 else if (&&) esc_colon
+                           (N.eqb c (Npos (XO (XI (XO (XI (XI XH)))))))
+                      then (Npos (XO (XO (XI (XI (XI (XO XH))))))) :: ((Npos
+                             (XO (XI (XO (XI (XI XH)))))) :: [])
+                      else c :: []
+
+(** val enc_gen : bool -> bytes -> bytes **)
+
+let rec enc_gen esc_colon = function
+| [] -> []
+| c :: x' -> app (enc_byte esc_colon c x') (enc_gen esc_colon x')
+
+(** val allowed : byte -> bool **)
+
+let allowed c =
+  (||)
+    ((||)
+      ((||) ((||) (is_plain c) (N.eqb c (Npos (XO (XO (XO (XO (XO XH))))))))
+        (N.eqb c (Npos (XI (XI (XO (XO (XO XH))))))))
+      (N.eqb c (Npos (XO (XO (XI (XO (XO XH))))))))
+    (N.eqb c (Npos (XO (XO (XI (XI (XI (XO XH))))))))
+
+(** val bad_pair : bool -> byte -> byte -> bool **)
+
+let bad_pair esc_colon c d =
+  (&&) (N.eqb c (Npos (XO (XO (XI (XI (XI (XO XH))))))))
+    ((||) (N.eqb d (Npos (XO (XO (XI (XO (XO XH)))))))
+      ((&&) (negb esc_colon) (N.eqb d (Npos (XO (XI (XO (XI (XI XH)))))))))
+
+(** val ok_adj : bool -> bytes -> bool **)
+
+let rec ok_adj esc_colon = function
+| [] -> true
+| c :: x' ->
+  (&&) (match x' with
+        | [] -> true
+        | d :: _ -> negb (bad_pair esc_colon c d)) (ok_adj esc_colon x')
+
+(** val wf_gen : bool -> bytes -> bool **)
+
+let wf_gen esc_colon x =
+  (&&)
+    ((&&)
+      ((&&) ((&&) (negb (is_nil x)) (forallb allowed x)) (ok_adj esc_colon x))
+      (negb (N.eqb (hd N0 (rev x)) (Npos (XO (XI (XO (XI (XI XH)))))))))
+    (Nat.even (count_bs (rev x)))
+
+type layout =
+| OneLine
+| ContPerName
+| Crlf of layout
+| TrailBlank of layout
+
+(** val lay_cont : layout -> bool **)
+
+let rec lay_cont = function
+| OneLine -> false
+| ContPerName -> true
+| Crlf l' -> lay_cont l'
+| TrailBlank l' -> lay_cont l'
+
+(** val lay_crlf : layout -> bool **)
+
+let rec lay_crlf = function
+| Crlf _ -> true
+| TrailBlank l' -> lay_crlf l'
+| _ -> false
+
+(** val lay_trail : layout -> nat **)
+
+let rec lay_trail = function
+| Crlf l' -> lay_trail l'
+| TrailBlank l' -> S (lay_trail l')
+| _ -> O
+
+(** val eol : layout -> bytes **)
+
+let eol l =
+  if lay_crlf l
+  then (Npos (XI (XO (XI XH)))) :: ((Npos (XO (XI (XO XH)))) :: [])
+  else (Npos (XO (XI (XO XH)))) :: []
+
+(** val dep_sep : layout -> bytes **)
+
+let dep_sep l =
+  if lay_cont l
+  then app ((Npos (XO (XO (XO (XO (XO XH)))))) :: ((Npos (XO (XO (XI (XI (XI
+         (XO XH))))))) :: []))
+         (app (eol l) ((Npos (XO (XO (XO (XO (XO XH)))))) :: []))
+  else (Npos (XO (XO (XO (XO (XO XH)))))) :: []
+
+(** val join_sp : bytes list -> bytes **)
+
+let join_sp = function
+| [] -> []
+| x :: xs' ->
+  app x (concat (map (fun y -> (Npos (XO (XO (XO (XO (XO XH)))))) :: y) xs'))
+
+(** val render_gen : bool -> layout -> bytes list -> bytes list -> bytes **)
+
+let render_gen esc_colon l ts ds =
+  app (join_sp (map (enc_gen esc_colon) ts))
+    (app ((Npos (XO (XI (XO (XI (XI XH)))))) :: [])
+      (app (concat (map (fun d -> app (dep_sep l) (enc_gen esc_colon d)) ds))
+        (app (repeat (Npos (XO (XO (XO (XO (XO XH)))))) (lay_trail l))
+          (eol l))))
+
+(** val render_rules_gen :
+    bool -> layout -> (bytes list * bytes list) list -> bytes **)
+
+let render_rules_gen esc_colon l rules =
+  concat (map (fun r -> render_gen esc_colon l (fst r) (snd r)) rules)
